@@ -67,6 +67,44 @@ func NewChildEnvironment(parent *Environment) *Environment {
 	return child
 }
 
+// newAsyncScope creates the scope an async block runs in. Objects and arrays are
+// Go maps and slices that field and index assignment mutate in place, so a block
+// that shared them with its parent would read a map while the other goroutine
+// writes it. The block therefore gets its own deep copy of every object and array
+// visible where it is spawned (taken on the spawning goroutine, before the block
+// starts), in a scope of its own between the parent's scope and the block's.
+func newAsyncScope(parent *Environment) *Environment {
+	snapshot := NewChildEnvironment(parent)
+	for name, val := range parent.GetAll() {
+		switch val.(type) {
+		case map[string]interface{}, []interface{}:
+			snapshot.vars[name] = binding{value: deepCopyValue(val), source: BindingUser}
+		}
+	}
+	return NewChildEnvironment(snapshot)
+}
+
+// deepCopyValue copies objects and arrays recursively; every other value is
+// immutable or a handle and is returned as is.
+func deepCopyValue(v interface{}) interface{} {
+	switch val := v.(type) {
+	case map[string]interface{}:
+		cp := make(map[string]interface{}, len(val))
+		for k, elem := range val {
+			cp[k] = deepCopyValue(elem)
+		}
+		return cp
+	case []interface{}:
+		cp := make([]interface{}, len(val))
+		for i, elem := range val {
+			cp[i] = deepCopyValue(elem)
+		}
+		return cp
+	default:
+		return v
+	}
+}
+
 // newEvaluationRoot creates the scope an independent evaluation (one request,
 // command, task, handler invocation) starts in: a child of parent with its own
 // recursion-depth counter.
